@@ -334,7 +334,7 @@ class C20(ParserSessionProp):
                                 oracle='torn_ptb_record_rejected',
                                 message=(f'ptb file cut at byte {offset} (record {k + 1} torn to {tail[-60:]!r}) still yields '
                                          f'a tree for the torn record'),
-                                signature={'format': 'ptb', 'kind': 'partial_tree'}))
+                                signature={'format': 'ptb', 'kind': 'partial_tree', 'words': _word_class(trees[k][1])}))
                             return out
                     elif inside and err is not None:
                         bump(stats, 'torn_records_rejected')
